@@ -1,5 +1,5 @@
 CONSTANTS
- NPal = 16
+ NPal = 18
  MaxLen = 2
  DecIdx = {2, 3, 5, 7}
  CoefIdx = {2, 4, 6}
